@@ -1,43 +1,40 @@
 // ---- shared prelude (hand-written specification; no real code here) -------------------------------
 global size_of usize == 8;
 
-use std::cmp::min;
-use vstd::std_specs::cmp::OrdSpec;
-
-/// assumed contract of std::cmp::min at usize (std is not verified here)
-pub assume_specification<T: Ord>[ std::cmp::min ](a: T, b: T) -> (r: T)
-    ensures T::obeys_cmp_spec() ==> r == (if b.cmp_spec(&a) == core::cmp::Ordering::Less { b } else { a });
+/// assumed contract of String::with_capacity (std is not verified here): the empty string
+pub assume_specification[ std::string::String::with_capacity ](n: usize) -> (r: std::string::String)
+    ensures r@ == Seq::<char>::empty();
 
 /// R2: every `panic!`/`unimplemented!`/`unreachable!` of the real code becomes a call to this
 /// function, whose precondition is `false`: panic freedom is an obligation, not an assumption.
 #[verifier::external_body]
-pub fn vpanic() -> !
+fn vpanic() -> !
     requires false
 { panic!() }
 
 /// base `i` (0..32) of a packed word: lane 0 is the two most significant bits
-pub open spec fn lane(w: u64, i: int) -> u8 {
+spec fn lane(w: u64, i: int) -> u8 {
     ((w >> ((62 - 2 * i) as u64)) & 3) as u8
 }
 
 /// strings are assumed shorter than 2^62 bases (a Vec<u64> of that many words cannot exist)
-pub open spec fn max_len() -> int { 0x3fff_ffff_ffff_ffff }
+spec fn max_len() -> int { 0x3fff_ffff_ffff_ffff }
 
 /// base `i` of a packed word vector
-pub open spec fn base_at(st: Seq<u64>, i: int) -> u8 {
+spec fn base_at(st: Seq<u64>, i: int) -> u8 {
     lane(st[i / 32], i % 32)
 }
 
 /// reverse complement of a base sequence: position i <-> n-1-i, base b -> 3-b
-pub open spec fn rc_seq(s: Seq<u8>) -> Seq<u8> {
+spec fn rc_seq(s: Seq<u8>) -> Seq<u8> {
     Seq::new(s.len(), |i: int| (3 - s[s.len() - 1 - i]) as u8)
 }
 
-pub open spec fn all_bases(s: Seq<u8>) -> bool {
+spec fn all_bases(s: Seq<u8>) -> bool {
     forall|i: int| 0 <= i < s.len() ==> #[trigger] s[i] < 4
 }
 
-pub proof fn lemma_set_lane(w0: u64, sh: u64, v: u64, j: u64)
+proof fn lemma_set_lane(w0: u64, sh: u64, v: u64, j: u64)
     requires sh <= 62, sh % 2 == 0, j <= 62, j % 2 == 0, v < 4,
     ensures ({
         let mask = 3u64 << sh;
@@ -53,7 +50,7 @@ pub proof fn lemma_set_lane(w0: u64, sh: u64, v: u64, j: u64)
         requires sh <= 62, sh % 2 == 0, j <= 62, j % 2 == 0, v < 4;
 }
 
-pub proof fn lemma_mask3(x: u8)
+proof fn lemma_mask3(x: u8)
     ensures (x as u64 & 3) < 4, (x as u64 & 3) == (x & 3) as u64, (x & 3) < 4, x < 4 ==> (x & 3) == x,
 {
     assert((x as u64 & 3) < 4) by (bit_vector);
@@ -62,7 +59,7 @@ pub proof fn lemma_mask3(x: u8)
     assert(x < 4 ==> (x & 3) == x) by (bit_vector);
 }
 
-pub proof fn lemma_lane_zero(i: int)
+proof fn lemma_lane_zero(i: int)
     requires 0 <= i < 32,
     ensures lane(0, i) == 0,
 {
@@ -70,7 +67,7 @@ pub proof fn lemma_lane_zero(i: int)
     assert(((0u64 >> sh) & 3) == 0) by (bit_vector);
 }
 
-pub proof fn lemma_lane_lt4(w: u64, i: int)
+proof fn lemma_lane_lt4(w: u64, i: int)
     requires 0 <= i < 32,
     ensures lane(w, i) < 4,
 {
@@ -79,7 +76,7 @@ pub proof fn lemma_lane_lt4(w: u64, i: int)
 }
 
 /// shifting a word left by 2*b lanes moves lane b+j to lane j
-pub proof fn lemma_lane_shl(w: u64, b: int, j: int)
+proof fn lemma_lane_shl(w: u64, b: int, j: int)
     requires 0 <= b < 32, 0 <= j, b + j < 32,
     ensures lane(w << ((2 * b) as u64), j) == lane(w, b + j),
 {
@@ -90,11 +87,13 @@ pub proof fn lemma_lane_shl(w: u64, b: int, j: int)
         requires s <= 62, s % 2 == 0, t <= 62, t % 2 == 0, u + s == t;
 }
 
+//@include libfns.inc
+
 // ---- trait-level contract of the packed k-mer types (the V <-> K seam, DESIGN.md §5.2/5.3) ---------
 // Verus sees only these clauses; Kani discharges each of them on the real impls of all 19 shipped types
 // (harness families k_len, k_get, k_set_mut, k_set_slice_mut, k_rc, k_extend_left/right, k_empty, k_eq_ord).
 
-pub trait Mer: Sized {
+trait Mer: Sized {
     spec fn mview(&self) -> Seq<u8>;
     spec fn minv(&self) -> bool;
 
@@ -121,7 +120,7 @@ pub trait Mer: Sized {
         ensures r.minv(), r.mview() == rc_seq(self.mview());
 }
 
-pub trait Kmer: Mer + Copy {
+trait Kmer: Mer + Copy {
     spec fn kk() -> nat;
 
     /// every well-formed k-mer has exactly K bases, each < 4
@@ -146,4 +145,42 @@ pub trait Kmer: Mer + Copy {
     fn from_bytes(bytes: &[u8]) -> (r: Self)
         requires bytes@.len() >= Self::kk(), forall|i: int| 0 <= i < Self::kk() ==> #[trigger] bytes@[i] < 4,
         ensures r.minv(), r.mview() == bytes@.subrange(0, Self::kk() as int);
+
+    // real default body (src/lib.rs `Kmer::to_string`): text rendering of any k-mer type (C10)
+//@fn src/lib.rs | pub trait Kmer | to_string | ret r
+//@ spec:
+//@     requires self.minv(),
+//@     ensures r@ =~= chars_of(self.mview()),
+//@ loop 0:
+//@     invariant self.minv(), s@.len() == pos, forall|j: int| 0 <= j < pos ==> s@[j] == char_of(self.mview()[j]),
+//@end
+}
+
+// ---- R4: text sinks (model of core::fmt::Formatter as a ghost sequence of chars) ---------------------
+pub mod fmt {
+    use vstd::prelude::*;
+    pub struct Error;
+    pub type Result = core::result::Result<(), Error>;
+    pub struct Formatter<'a> { pub out: Ghost<Seq<char>>, pub _p: core::marker::PhantomData<&'a ()> }
+
+    pub trait Rendered {
+        spec fn rendering(&self) -> Seq<char>;
+    }
+    impl Rendered for char {
+        open spec fn rendering(&self) -> Seq<char> { seq![*self] }
+    }
+    impl Rendered for String {
+        open spec fn rendering(&self) -> Seq<char> { self@ }
+    }
+
+    /// `write!(f, "{}", e)`: on success exactly the rendering of `e` was appended
+    #[verifier::external_body]
+    pub fn sink<T: Rendered>(f: &mut Formatter, e: T) -> (r: Result)
+        ensures r.is_ok() ==> final(f).out@ == old(f).out@ + e.rendering(),
+    { unimplemented!() }
+
+    /// any other format string: output unspecified
+    #[verifier::external_body]
+    pub fn sink_other(f: &mut Formatter) -> (r: Result)
+    { unimplemented!() }
 }
